@@ -87,7 +87,23 @@ def run(ctx):
                 r = {"op": "decomp", "n": n, "a": gen.flat_bits(A)}
                 if tol is not None:
                     r["tol"] = f2b(tol)
+                    if rng.random() < 0.5:
+                        r["debug"] = True      # print_debug_info: must not change the outcome (the model has no such flag)
                 reqs.append(r); infos.append((cls, A, tol))
+    # exactly singular matrices whose Cholesky pivots are NOT exactly representable (rank-deficient, irrational square roots): the
+    # rounded pivot product may be non-zero - then Ok must come with a non-zero determinant; if it is zero, ZeroDet
+    for n in range(2, 6):
+        for _ in range(per):
+            B = [[float(rng.choice([1, 2, 3, 5, 6, 7])) * rng.choice([-1, 1]) if j < n - 1 else 0.0 for j in range(n)] for i in range(n)]
+            A = [[sum(B[i][k] * B[j][k] for k in range(n)) for j in range(n)] for i in range(n)]
+            for tol in (None, 1e-6):
+                r = {"op": "decomp", "n": n, "a": gen.flat_bits(A)}
+                if tol is not None:
+                    r["tol"] = f2b(tol)
+                reqs.append(r); infos.append(("singular_rounded", A, tol))
+    for a2, b2 in ((2.0, 1.0), (8.0, 2.0), (2.0, 3.0), (2.0, 2.0), (0.5, 0.25), (6.0, 3.0)):
+        A = [[a2, b2], [b2, b2 * b2 / a2]]
+        reqs.append({"op": "decomp", "n": 2, "a": gen.flat_bits(A)}); infos.append(("singular_rounded", A, None))
     impl = run_harness(reqs)
     model = run_driver(reqs)
     for r, a, m, (cls, A, tol) in zip(reqs, impl, model, infos):
@@ -154,6 +170,14 @@ def through_samples(ctx):
         s["tol"] = tol
         s["req"] = S.sample_request(s["case"], s["routing"], s["table"], s["xs"], tol=tol)
     S.run(ss)
+    # the same requests with print_debug_info off (the runs above have it on: the Feynman parameters are read from the debug log)
+    quiet = run_harness([dict(s["req"], debug=False) for s in ss])
+    for s, qa in zip(ss, quiet):
+        a = s["impl"]
+        ctx.count("sample.debug_on_vs_off")
+        if a.get("status") != qa.get("status") or any(a.get(k) != qa.get(k) for k in ("u", "v", "jac", "k")):
+            ctx.violation(f"the outcome of a sample with the stability test on depends on print_debug_info: {a.get('status')} with it, "
+                          f"{qa.get('status')} without", S.small_req(s), expected=qa.get("status"), observed=a.get("status"))
     reqs, idx = [], []
     for i, s in enumerate(ss):
         a = s["impl"]
